@@ -1,5 +1,7 @@
 package base
 
+import "ti/verifhook"
+
 type ClassNode struct {
 	Frame     string
 	Class     string
@@ -14,6 +16,8 @@ var ClassInheritanceMap = make(map[ClassNode][]ClassNode)
 // superclasses and modules, so that what those declare overrides what Object
 // declares, whatever order the edges were added in.
 func parentNodes(classNode ClassNode) []ClassNode {
+	verifhook.Walk()
+
 	nodes := ClassInheritanceMap[classNode]
 
 	ordered := make([]ClassNode, 0, len(nodes))
